@@ -75,6 +75,12 @@ func checkID(id, kind string, sigil byte) (err error) {
 		)
 		return
 	}
+	return checkIDLength(id, kind)
+}
+
+// checkIDLength applies the length limits of checkID to an ID of any format
+// (domainless room IDs, pseudo ID senders).
+func checkIDLength(id, kind string) (err error) {
 	if l := utf8.RuneCountInString(id); l > maxIDLength {
 		err = EventValidationError{
 			Code:    EventValidationTooLarge,
